@@ -73,12 +73,27 @@ class Runner(object):
         self.trace = []
         self.walks = []
         self.step = 0
+        self.ro_sha = None
+        self.ro_violations = []
+
+    def sha(self):
+        import hashlib
+        with open(self.path, "rb") as fh:
+            return hashlib.sha256(fh.read()).hexdigest()
 
     def close(self):
         try:
             self.f.close()
         except Exception:
             pass
+        self.check_ro_bytes()
+
+    def check_ro_bytes(self):
+        """after a read-only session the bytes on disk must be what they were when it began"""
+        if self.ro_sha is not None:
+            if self.sha() != self.ro_sha:
+                self.ro_violations.append(self.step)
+            self.ro_sha = None
 
     def obj(self, h):
         return self.handles[h][1]
@@ -181,7 +196,10 @@ class Runner(object):
             auto = self.f.auto_update_timestamps
             self.f.close()
             gc.collect()
+            self.check_ro_bytes()
             self.readonly = bool(op[1])
+            if self.readonly:
+                self.ro_sha = self.sha()
             self.f = nixio.File.open(self.path, nixio.FileMode.ReadOnly if op[1] else nixio.FileMode.ReadWrite,
                                      auto_update_timestamps=auto)
             self.handles = [("File", self.f, None)]
@@ -466,7 +484,8 @@ def gen_history(seed, length, profile, workdir, with_times, k):
         os.remove(path)
     except OSError:
         pass
-    return {"ops": ops, "results": results, "trace": r.trace, "walks": r.walks if profile.get("keep_walks") else None}
+    return {"ops": ops, "results": results, "trace": r.trace, "ro_violations": r.ro_violations,
+            "walks": r.walks if profile.get("keep_walks") else None}
 
 
 def replay_history(ops, workdir, with_times, k=0):
@@ -481,7 +500,7 @@ def replay_history(ops, workdir, with_times, k=0):
         os.remove(path)
     except OSError:
         pass
-    return {"ops": ops, "results": results, "trace": r.trace, "walks": r.walks}
+    return {"ops": ops, "results": results, "trace": r.trace, "walks": r.walks, "ro_violations": r.ro_violations}
 
 
 def main():
